@@ -492,7 +492,8 @@ def run_trading(rnd, S, cfgk, intensity=1.0, script=None, analyser=False, ids=No
                 prec = next((x for x in S["stocks"] if x["id"] == pred), None)
                 if prec is not None and prec["delisted"] is not None and env.trading_dt.date() in S["cal"]:
                     di = S["cal"].index(env.trading_dt.date())
-                    if di == S["cal"].index(prec["delisted"]) - 2:
+                    held_now = context.portfolio.accounts["STOCK"].get_position(pred, POSITION_DIRECTION.LONG).quantity
+                    if S["cal"].index(prec["delisted"]) - 4 <= di <= S["cal"].index(prec["delisted"]) - 2 and held_now == 0:
                         def f6(call, before, oid=pred, q=300 + 400 * (di % 3)):
                             call.update(api="order_shares", args=(oid, q, None))
                             return api.order_shares(oid, q)
